@@ -331,6 +331,9 @@ class ValueSet:
                         different = True
                 else:
                     different = True
+            # (a region only this value set has, as much as one only the other has)
+            if any(region not in other.regions for region in self.regions):
+                different = True
 
             if same and not different:
                 return TrueResult()
